@@ -51,4 +51,34 @@ class C20(HndBase):
         return cases
 
 
+from mgrbase import MgrBase, protocol_scenario
+
+
+class C20Mgr(MgrBase):
+    """manager side of C20: when a connection is gone (KillReq) its peer state is forgotten and no reservation outlives
+    its holders -- end-game duplicates, choked holders and repeated kills included"""
+    id = "C20"
+    coq_header = ("From Rdest Require Import Base Consts Wire Manager Corr.Mgr.\nOpen Scope N_scope.\n"
+                  "Definition codes := codes20m.\n")
+    rule = ""
+
+    def corpus(self):
+        # two end-game holders of the same piece, both dropped
+        a = ["add 1", "init 1", "bf 1 11", "add 2", "init 2", "bf 2 11", "unchoke 1", "unchoke 2", "kill 1", "kill 2"]
+        return [self.mk("prod", 2, 4, 7, a, "release-mgr")]
+
+    def gen(self, rng, tier):
+        k = {"quick": 200, "thorough": 5000, "search": 1200}.get(tier, 200)
+        w = {"unchoke": 6, "choke": 2, "have": 1, "done": 3, "cancel": 1, "kill": 6, "join": 5, "bf": 1, "nint": 1, "tresp": 2}
+        cases = []
+        for _ in range(k):
+            n = rng.choice([1, 2, 2, 3, 11])
+            pl = 4
+            total = pl * n - rng.randrange(0, pl)
+            ops = protocol_scenario(rng, rng.choice([2, 3, 4]), n, rng.choice([10, 16, 24]), weights=w)
+            cases.append(self.mk("prod", n, pl, total, ops, "release-mgr"))
+        return cases
+
+
 PROP = C20()
+PROP.parts = [PROP, C20Mgr()]
